@@ -186,7 +186,8 @@ func (rc *retentionTask[T, O]) run(_ context.Context, now time.Time, l *logger.L
 
 	rc.database.incTotalRetentionStarted(1)
 	defer rc.database.incTotalRetentionFinished(1)
-	deadline := now.Add(-rc.duration)
+	// Read the TTL at run time: it can be changed on a live database through UpdateOptions.
+	deadline := now.Add(-rc.database.segmentController.getOptions().TTL.estimatedDuration())
 	start := time.Now()
 	hasData, err := rc.database.segmentController.remove(deadline)
 	if hasData {
